@@ -134,7 +134,7 @@ fn entry_spec() -> BoxedStrategy<EntrySpec> {
 }
 
 fn case_strategy(tier: Tier) -> BoxedStrategy<Case> {
-    (
+    let base = (
         prop::collection::vec(0usize..DIRS.len(), 0..=2),
         0usize..FILES.len(),
         content_strategy(tier),
@@ -145,6 +145,17 @@ fn case_strategy(tier: Tier) -> BoxedStrategy<Case> {
             let mut comps: Vec<B> = dirs.into_iter().map(|d| B(DIRS[d].to_vec())).collect();
             comps.push(B(FILES[f].to_vec()));
             Case { comps, content: B(content), entries, via_text }
+        })
+        .boxed();
+    // one case in four uses a generated file name (arbitrary non-white-space bytes, patch shapes)
+    let generated = crate::props::distgen::name().prop_filter("single component without NUL", |n| !n.contains(&b'/') && !n.contains(&0) && n.len() < 200);
+    (base, prop::option::weighted(0.25, generated))
+        .prop_map(|(mut c, g)| {
+            if let Some(n) = g {
+                let last = c.comps.len() - 1;
+                c.comps[last] = B(n);
+            }
+            c
         })
         .boxed()
 }
